@@ -151,6 +151,7 @@ static void run_case (long idx) {
 int main (int argc, char **argv) {
   vp_args_t a = vp_parse_args (argc, argv);
   gseed = a.seed; gmode = a.mode[0] ? a.mode : "c01"; gfeat = (unsigned) strtoul (a.extra[0] ? a.extra : "0", 0, 0);
+  if (!strcmp (gmode, "c04")) gfeat |= PF_INLINE_BIAS;
   mainbuf_init ();
   vp_watch_fp = "engine-hang";
   int dump = 0; for (int i = 1; i < argc; i++) if (!strcmp (argv[i], "--dump")) dump = 1;
